@@ -616,14 +616,21 @@ int main(int argc, char *argv[]) {
     build_c_wrappers = true;
   }
 
+  std::set<Filename> requested;
   for (int i = 1; i < argc; i++) {
     string param = argv[i];
 
 
     if (param.length() > 3 && param.substr(param.length() - 3) == ".in") {
       // If the filename ends in ".in", it's an interrogate database file, not
-      // a shared library--read it directly.
-      interrogate_request_database(param.c_str());
+      // a shared library--read it directly.  Read it once, however often it
+      // is named: merging a database with itself would duplicate its
+      // functions.
+      Filename canonical = Filename::from_os_specific(param);
+      canonical.make_canonical();
+      if (requested.insert(canonical).second) {
+        interrogate_request_database(param.c_str());
+      }
 
     } else {
       // Otherwise, assume it's a shared library, and try to load it.
